@@ -71,6 +71,8 @@ PLAN = {
         dict(test="TestC06Exhaustive", kind="plain", quick=(0, 1), thorough=(0, 1)),
         dict(test="TestC06Random", quick=(15000, 4), thorough=(300000, 8)),
         dict(test="TestC06Boundary", quick=(15000, 4), thorough=(300000, 8)),
+        # the thresholds as the protocol logic applies them (prepared / committed / elected on a real node), both directions
+        dict(test="TestC06InUse", quick=(5000, 6), thorough=(150000, 8)),
     ],
 }
 
@@ -98,7 +100,7 @@ RULES = {
     "C19": "(a) formula: bases {1ns,1us,1ms,4s,1h,2^62ns,random<=24h} x views 0..200 dense, powers of two +-1, 2^64-1-k, random: CalcTimeout > 0, = base*2^v exactly when that fits in int64, otherwise >= every lower view's timeout (saturating), non-decreasing. (b) real TimerBasedElectionTrigger (base 2..5 ms, views 0..3): generated Register/Stop/sleep (incl. +-1 ms around the expiry)/reader on-slow-off sequences; history oracle: every trigger read was armed, <= 1 per arming, not before t_before_register + CalcTimeout(v); an armed un-superseded registration delivers within timeout+400ms (a miss counts only three runs in a row). Full node on the real timer left alone: every view lasts >= its timeout (1.5 ms measuring slack), views keep advancing. Non-trivial = base*2^v >= 2^62 (a); a stop/register/sleep placed within 1 ms of an expiry, or a node run (b).",
     "C20": "cases = messages of all five kinds and block proofs built only through messagesfactory / GenerateLeanHelixBlockProof with the registry key manager: instance/height/view over the 64-bit range (boundary classes), ids / hashes of length 0..256 with arbitrary bytes, 0..20 preparers, 0..20 votes each with optional proof, block present or nil. Oracle: ToConsensusRawMessage -> ToConsensusMessage gives the same type, fields, bytes; nested proofs and votes equal field by field and in number; every signature verifies over the re-read bytes (header Raw(), embedded votes, proof references, proof.BlockRef().Raw()); parsing a copy twice and parsing BuilderFromRaw output give identical accessors. Non-trivial = a variable-length field of length 0 or >= 128, or >= 2 nested votes/preparers, or a 64-bit field >= 2^63.",
     "C18": "cases = (committee size n in 4..64, view): dense 0..4n, powers of two +-1, neighbourhoods of 2^31, 2^32, 2^63, 2^64-1-k, random 64-bit; oracle VerifLeaderOf(view, committee) == committee[view mod n] in uint64, no panic, and every window of n consecutive views has n distinct leaders. Non-trivial = view >= 2^31 or within n of 0 or a multiple of n. Distinct = (n, view). Behavioural part (engine N, 20-byte member ids sharing their leading bytes): PREPREPARE / NEW_VIEW / PREPARE / VIEW_CHANGE candidates with the sender swapped to another member (re-signed with that member's key) in views reached by timeouts and NEW_VIEWs; any effect of a message whose sender does not have the leader role the reference assigns (view mod n) is a violation.",
-    "C06": "cases = (weight vector, id list A, id list B): exhaustive small vectors x all subset pairs, random vectors n<=16 with weight classes up to 2^64, and boundary-shaped committees [F,W-F],[F+1,W-F-1],[F+1,F+1,W-2F-2],[F,F,W-2F],[F,1,W-F-1] for W around 7..2^64; id lists include duplicates and non-members. Non-trivial = total weight > 2^53 or weight(A) within 1 of f or Q. Distinct = distinct (weights, A, B).",
+    "C06": "cases = (weight vector, id list A, id list B): exhaustive small vectors x all subset pairs, random vectors n<=16 with weight classes up to 2^64, and boundary-shaped committees [F,W-F],[F+1,W-F-1],[F+1,F+1,W-2F-2],[F,F,W-2F],[F,1,W-F-1] for W around 7..2^64; id lists include duplicates and non-members. Non-trivial = total weight > 2^53 or weight(A) within 1 of f or Q. Distinct = distinct (weights, A, B). Behavioural part (TestC06InUse): one real node, committee 4..9 with weight classes unit / small / with zero-weight members / stake-sized (k*2^58+low bits) / 2^53+k / 1..100, 20-byte ids sharing their leading bytes, 0..2 outsiders; genuinely signed PREPAREs, COMMITs or VIEW_CHANGEs of a generated sender sequence (every member and outsider in a drawn order, with repeats) are delivered one at a time; after each delivery the node has sent COMMIT (prepared) / invoked the commit callback / sent NEW_VIEW (elected) if and only if the distinct committee members counted so far reach Q in big-integer arithmetic. Non-trivial there = some delivery left the counted set one member away from the threshold.",
 }
 
 ASSUMPTIONS = {
